@@ -260,10 +260,70 @@ def normalise_branches(fn):
     return n
 
 
+def _is_literal(e, depth=0):
+    if isinstance(e, ast.Constant):
+        return True
+    if isinstance(e, ast.UnaryOp) and isinstance(e.op, (ast.USub, ast.UAdd)) and isinstance(e.operand, ast.Constant):
+        return True
+    if isinstance(e, ast.BinOp) and isinstance(e.op, (ast.Add, ast.Sub, ast.Mult, ast.Div, ast.Pow)) and depth < 3:
+        return _is_literal(e.left, depth + 1) and _is_literal(e.right, depth + 1)
+    if isinstance(e, (ast.Tuple, ast.List)) and depth < 3:
+        return all(_is_literal(x, depth + 1) for x in e.elts)
+    return False
+
+
+def propagate_module_constants(tree):
+    """a module-level name bound exactly once to a literal (number, string, tuple / list of literals, arithmetic on literals) is
+    replaced by the literal inside the functions of the module (unless the function binds the name itself).  Moving a literal
+    into a named constant, or back, is the same program to every rule."""
+    import copy
+    binds = {}
+    for st in tree.body:
+        for t in (st.targets if isinstance(st, ast.Assign) else [st.target] if isinstance(st, (ast.AnnAssign, ast.AugAssign)) else []):
+            for x in ast.walk(t):
+                if isinstance(x, ast.Name):
+                    binds.setdefault(x.id, []).append(st)
+        if isinstance(st, (ast.FunctionDef, ast.AsyncFunctionDef, ast.ClassDef)):
+            binds.setdefault(st.name, []).append(st)
+        if isinstance(st, (ast.Import, ast.ImportFrom)):
+            for a in st.names:
+                binds.setdefault((a.asname or a.name).split(".")[0], []).append(st)
+    consts = {}
+    for name, sts in binds.items():
+        if len(sts) == 1 and isinstance(sts[0], ast.Assign) and len(sts[0].targets) == 1 and isinstance(sts[0].targets[0], ast.Name) \
+                and _is_literal(sts[0].value) and not name.startswith("__"):
+            consts[name] = sts[0].value
+    # names re-bound anywhere below module level through `global`
+    for x in ast.walk(tree):
+        if isinstance(x, ast.Global):
+            for nm in x.names:
+                consts.pop(nm, None)
+    if not consts:
+        return 0
+    n = 0
+    for fn in [x for x in ast.walk(tree) if isinstance(x, (ast.FunctionDef, ast.AsyncFunctionDef))]:
+        local = {x.id for x in ast.walk(fn) if isinstance(x, ast.Name) and isinstance(x.ctx, (ast.Store, ast.Del))}
+        a_ = fn.args
+        local |= {x.arg for x in a_.posonlyargs + a_.args + a_.kwonlyargs} | ({a_.vararg.arg} if a_.vararg else set()) | \
+            ({a_.kwarg.arg} if a_.kwarg else set())
+        for node in ast.walk(fn):
+            for fld, val in ast.iter_fields(node):
+                if isinstance(val, ast.Name) and isinstance(val.ctx, ast.Load) and val.id in consts and val.id not in local:
+                    setattr(node, fld, ast.copy_location(copy.deepcopy(consts[val.id]), val))
+                    n += 1
+                elif isinstance(val, list):
+                    for i, v in enumerate(val):
+                        if isinstance(v, ast.Name) and isinstance(v.ctx, ast.Load) and v.id in consts and v.id not in local:
+                            val[i] = ast.copy_location(copy.deepcopy(consts[v.id]), v)
+                            n += 1
+    return n
+
+
 def canonicalise(tree):
-    """canonical form of every function of a module, in place: comparisons oriented, branches normalised, single-use temporaries
-    folded into their use"""
-    n = orient_comparisons(tree)
+    """canonical form of every function of a module, in place: module-level literal constants propagated, comparisons oriented,
+    branches normalised, single-use temporaries folded into their use"""
+    n = propagate_module_constants(tree)
+    n += orient_comparisons(tree)
     for fn in [x for x in ast.walk(tree) if isinstance(x, (ast.FunctionDef, ast.AsyncFunctionDef))]:
         n += normalise_branches(fn)
         n += fold_temporaries(fn)
